@@ -56,6 +56,12 @@ func c13Pass(r *core.Rand, jitter bool) []c13Stmt {
 	// case) must not leave a second store, with a flusher of its own, behind
 	add("other", "USE d1", "")
 	add("other", "USE D1", "")
+	// statements that are refused - CREATE DATABASE for a database that
+	// exists (the one in use), USE of one that does not - must not leave
+	// anything behind that writes to the data file either
+	add("refused", "CREATE DATABASE d1", "")
+	add("refused", "CREATE DATABASE D1", "")
+	add("refused", "USE nosuchdb", "")
 	add("create", "CREATE TABLE a (k INT, g INT, s VARCHAR(40))", "dirty2")
 	add("create", "CREATE TABLE b (k INT, g INT, s VARCHAR(40))", "")
 	add("insert", "INSERT INTO a VALUES "+rows(0, 1), "wal")
@@ -216,7 +222,7 @@ func parseRaceLogs(dir string) []raceReport {
 }
 
 func checkC13(c *core.Ctx) []core.Floor {
-	c.Rule = "one session goroutine against the REAL 100 ms flush goroutine. Each pass executes every statement kind {CREATE TABLE, INSERT single, INSERT multi-row (splitting; also 300 rows; a table grown to 1250 rows in five statements, through the split of its internal root), UPDATE and DELETE (also over 300 rows), SELECT scan, SELECT join} with placements {idle gap > 1 tick before and after, park of > 2 ticks at the statement's 2nd page change, park of > 2 ticks inside the log append, SELECT: park at a cache miss}, on fresh pages and after a reload (cold cache); eight tables are created in one database, each CREATE held open, so that the CREATE whose catalog row splits the catalog root is among them. (a) -race build: handlers only sleep on the session goroutine and add no synchronisation; every data-race report with mkdb frames is a violation (happens-before reasoning, independent of the observed timing). (b) plain build (once as is, once with every page write of a flush slowed down to 15 ms by a sleep in the write hook): every hook event is logged with its goroutine id; offline checker: no page or header write by ANY goroutine between a statement's first page change and the completion of its log append (CREATE TABLE: its last page change); the same checker - and the race build - runs over passes with a page cache of 10-24 pages and statements that dirty hundreds of pages (the statement may be refused with 'cache is full', but must not push its own half-done pages to the data file). Distinct = (pass, statement, placement); non-trivial = the statement was actually held open (parked) across more than two timer periods."
+	c.Rule = "one session goroutine against the REAL 100 ms flush goroutine. Each pass executes every statement kind {CREATE TABLE, INSERT single, INSERT multi-row (splitting; also 300 rows; a table grown to 1250 rows in five statements, through the split of its internal root), UPDATE and DELETE (also over 300 rows), SELECT scan, SELECT join} with placements {idle gap > 1 tick before and after, park of > 2 ticks at the statement's 2nd page change, park of > 2 ticks inside the log append, SELECT: park at a cache miss}, on fresh pages and after a reload (cold cache); the database in use is created again and a missing one selected (both refused) before the first table; eight tables are created in one database, each CREATE held open, so that the CREATE whose catalog row splits the catalog root is among them. (a) -race build: handlers only sleep on the session goroutine and add no synchronisation; every data-race report with mkdb frames is a violation (happens-before reasoning, independent of the observed timing). (b) plain build (once as is, once with every page write of a flush slowed down to 15 ms by a sleep in the write hook): every hook event is logged with its goroutine id; offline checker: no page or header write by ANY goroutine between a statement's first page change and the completion of its log append (CREATE TABLE: its last page change); the same checker - and the race build - runs over passes with a page cache of 10-24 pages and statements that dirty hundreds of pages (the statement may be refused with 'cache is full', but must not push its own half-done pages to the data file). Distinct = (pass, statement, placement); non-trivial = the statement was actually held open (parked) across more than two timer periods."
 	c.Assume = []string{"a park of 230-400 ms spans at least two 100 ms ticks", "handlers of the race build run on the session goroutine only and share nothing with the flusher"}
 	passes := 2
 	if !core.Quick(c) {
@@ -291,6 +297,14 @@ func c13Outcome(c *core.Ctx, mode string, sc script, out *core.RunOut, pass []c1
 		res := out.Res[k]
 		if res.Panic != "" {
 			c.Violation("C13:panic:"+res.Frame, fmt.Sprintf("[%s build] %s panicked: %s", mode, st.sql, res.Panic), map[string]interface{}{"pass": passNo, "statement": st.sql, "park": st.park})
+			continue
+		}
+		if st.kind == "refused" {
+			if res.Err == "" {
+				c.Inconclusive("workload", fmt.Sprintf("statement meant to be refused was accepted: %s", st.sql))
+			} else {
+				c.Count("refused_database_statements_in_passes", 1)
+			}
 			continue
 		}
 		if res.Err != "" {
